@@ -120,6 +120,15 @@ func checkConfigCompatibility(
 		}
 	}
 
+	{
+		// the reference count of log records in the shared allocator is the number of outputs
+		oldNum := len(oldConf.OutputBuffersPairs)
+		newNum := len(newConf.OutputBuffersPairs)
+		if oldNum != newNum {
+			return fmt.Errorf("the number of outputBufferPairs must not change: old=%d, new=%d", oldNum, newNum)
+		}
+	}
+
 	// check schema fields last because other comparisons are more verbose
 	{
 		for _, field := range oldStats.FixedFields {
